@@ -38,3 +38,12 @@ Definition C13_legacy_refuted := A1_legacy_refuted.
 
 (** non-vacuity: every hypothesis is satisfiable (concrete game, all laws proved, runs evaluated) *)
 Definition C13_nonvacuous := toy_search_spec_a.
+
+(** * For the real board model (see C03.v for the setting) *)
+From Morlock.Lemmas Require Import SearchBoardInst1 SearchBoardInst4 SearchBoardInst SearchBoardInst5.
+Definition C13_board_window := @board_window_nott.
+Check @board_window_nott.
+Print Assumptions board_window_nott.
+Definition C13_board_quiescence := @board_qs_contract.
+Check @board_qs_contract.
+Print Assumptions board_qs_contract.
